@@ -1031,6 +1031,11 @@ def robot_cases(pid, deep=False):
         elif pid in ("C06", "C05") and fms and fcode[0][1] >= 3:
             # with the FMS attached a raising callback must not disturb the lifecycle either
             case["faults"] = decode_faults(fcode, rs)
+        if pid == "C06" and case.get("faults") and fcode[0][2] % 2 == 0:
+            # the lifecycle hooks of the components are the subject of C06: make faults in them common
+            hooks_ = [f"{c['n']}.{h}" for c in rs["comps"] for h, k in (("on_enable", "en"), ("on_disable", "dis")) if c.get(k)]
+            if hooks_ and not any(f["site"] in hooks_ for f in case["faults"]):
+                case["faults"][0]["site"] = hooks_[fcode[0][0] % len(hooks_)]
         if pid in ("C05", "C06", "C10") and wcode and wcode[0][1] % 2 == 0:
             # some mode changes arrive while an iteration is still running (made from inside one of its callbacks)
             case["early"] = {str(j): 1 + (w[2] % 4) for j, w in enumerate(wcode) if j + 1 < len(case["hist"])}
